@@ -39,8 +39,9 @@ class FakeLocale:
                 return v
         return self.other
 
-    def getlocale(self, cat=None):
-        return self.cur
+    def getlocale(self, cat=locale.LC_CTYPE):
+        # the default category of locale.getlocale() is LC_CTYPE, whose locale differs from LC_COLLATE in this world
+        return self.cur if cat == locale.LC_COLLATE else ('xx_CTYPE', 'UTF-8')
 
     def setlocale(self, cat, value=None):
         if value is None:
